@@ -346,6 +346,9 @@ def oracle(w, mev, consts):
                 key = f"{i['dst']}/{w.tag_of.get(r)}"
                 if w.tag_of.get(r) is not None and key in st.split("pending=")[1].split()[0].split(","):
                     return f"request {r} ended ({res}) but its bookkeeping entry {key} remains in the pending table"
+                if res == "ok" and i["kind"] == "u" and "t_accept" not in i and i["t_send"] and i.get("last_enqueue") in ("busy", "refused"):
+                    return (f"unicast {r} (dst {i['dst']}, tag {w.tag_of.get(r)}) reported delivered although the NCP accepted none of its {len(i['t_send'])} "
+                            f"enqueue attempt(s) (last answer: {i.get('last_enqueue')})")
                 if res == "ok" and i["kind"] == "u":
                     if i["confirmed"] is None or not i["confirmed"][0]:
                         return f"unicast {r} (dst {i['dst']}, tag {w.tag_of.get(r)}) reported delivered without a successful confirmation for its own destination and tag"
@@ -417,7 +420,9 @@ def scripts(ctx):
     # single request: every enqueue-status script x confirmation behaviour
     for ks in kinds:
         for enq in itertools.product(["ok", "busy", "refused"], repeat=3):
-            for conf in ("own1", "own0", "none", "tag", "dst", "dup", "early"):
+            for conf in ("own1", "own0", "none", "tag", "dst", "dup", "early", "pause"):
+                if conf == "pause" and enq[0] != "busy":
+                    continue
                 sc = [f"S=1=4660={ks}={rng.choice('01')}"]
                 steps = ks.split("=")[1]
                 done = False
@@ -436,6 +441,10 @@ def scripts(ctx):
                     if st == "ok" or st == "refused":
                         done = True
                         break
+                    if conf == "pause" and a == 0:
+                        # a confirmation for this destination and tag arrives while the host pauses after a busy answer - for a
+                        # message the NCP has not accepted: the enqueue is retried all the same
+                        sc.append("F=1=own=1")
                     sc.append("T")
                 if enq[0] == "ok" or (done and st == "ok"):
                     if conf == "own1":
